@@ -83,6 +83,8 @@ FIXED_TEXTS = [
     "é✓", "é\nü", "", " ", "\t", "'\"`", "{}", "a\\nb", "]]\n", "\n]]", "]\n", "]=\n", "x\n]", "x\n]=",
     "[[ hello ]]", "[=[ x ]=]", "[[x]] y", "Copyright (c) 2024\nAll rights reserved.", "[é[", "[===é[ x",
     "é[=[", "end\r\n", "[[\r", "\n\n\n", "]]]]", "]=]=]", "=", "==]", "a\n]]\n]=]\n]==]\n]===]",
+    # one line + line break (typical of a `file:` text), line break + one line, CRLF endings
+    "header\n", "\nheader", "two\nlines\n", "header\r\n", "two\r\nlines", "two\r\nlines\r\n", "[[ header\n", "a\n[[b",
 ]
 
 PIECES = ["]", "[", "=", "-", "\n", "\r", "a", " ", "é", "]]", "]=]", "[[", "[=[", "--", "x", "\r\n", "print(1)"]
